@@ -46,6 +46,7 @@ ASYM_NODES = {
     "multipitch.metrics": {"multipitch.resample_multipitch", "np.allclose", "cmp !="},
 }
 SCOPE_SKIP = {"separation", "sonify", "io", "util", "display"}
+SPAN_NODES = {"util.adjust_intervals", "util.adjust_events", "hierarchy._align_intervals"}
 
 
 def _unloop(t):
@@ -111,6 +112,8 @@ def rule_mirrorpipe(ctx):
                     continue
                 k += 1
                 name = call_name(x) if x.op == "call" else "%s %s" % (x.op, x.a[0])
+                if name in SPAN_NODES:
+                    continue  # the estimate is padded/cropped to the reference span: identity for a copy (form checked by C03.PREPROC / C12.PIPELINE)
                 if f.qual in ASYM_NODES:
                     if name in ASYM_NODES[f.qual]:
                         continue
